@@ -2903,6 +2903,22 @@ func (p *Posix) PutObject(ctx context.Context, po s3response.PutObjectInput) (s3
 			return s3response.PutObjectOutput{}, err
 		}
 
+		// the user metadata of an earlier put of this directory object is
+		// replaced, not added to
+		if ents, err := p.meta.ListAttributes(*po.Bucket, *po.Key); err == nil {
+			for _, e := range ents {
+				if !isValidMeta(e) {
+					continue
+				}
+				if _, keep := po.Metadata[strings.TrimPrefix(e, fmt.Sprintf("%v.", metaHdr))]; keep {
+					continue
+				}
+				err := p.meta.DeleteAttribute(*po.Bucket, *po.Key, e)
+				if err != nil && !errors.Is(err, meta.ErrNoSuchKey) {
+					return s3response.PutObjectOutput{}, fmt.Errorf("remove user attr %q: %w", e, err)
+				}
+			}
+		}
 		for k, v := range po.Metadata {
 			err := p.meta.StoreAttribute(nil, *po.Bucket, *po.Key,
 				fmt.Sprintf("%v.%v", metaHdr, k), []byte(v))
